@@ -47,6 +47,10 @@ class Crash(Exception):
     pass
 
 
+class Interrupt(BaseException):
+    """an interruption that is not an `Exception` (what Ctrl-C or a solver time-out built on BaseException looks like)"""
+
+
 def sess(st, a, stay, kind, i=0):
     s = {"st": st, "a": a, "d": a + stay, "kind": kind}
     if kind == "big":
@@ -77,7 +81,7 @@ def bounds(tier, seed):
         "tier": tier,
         "kmax": 2 if tier == "quick" else 3,
         "crash_points": "every scheduler invocation" + ("" if tier == "quick" else " and every ordered pair of them"),
-        "modes": ["resume", "json"],
+        "modes": ["resume", "json", "interrupt (single interruptions: resume after an exception that is not an Exception subclass)"],
         "positions": ["before", "after"],
         "configs": sorted(CFGS),
     }
@@ -258,11 +262,11 @@ class Driver:
 
     def on_call(self, rec, active, r):
         if self.plan and self.plan[0][1] == "before" and self.plan[0][0] == r["t"]:
-            raise Crash("before@%d" % r["t"])
+            raise (Interrupt if self.plan[0][2] == "interrupt" else Crash)("before@%d" % r["t"])
 
     def on_return(self, rec, active, r, out):
         if self.plan and self.plan[0][1] == "after" and self.plan[0][0] == r["t"]:
-            raise Crash("after@%d" % r["t"])
+            raise (Interrupt if self.plan[0][2] == "interrupt" else Crash)("after@%d" % r["t"])
         return out
 
     def attach_monitor(self, sim):
@@ -285,7 +289,7 @@ class Driver:
             try:
                 sim.run()
                 break
-            except Crash:
+            except (Crash, Interrupt):
                 t, pos, mode = self.plan.pop(0)
                 snap = snapshot(sim)
                 self.states.append((self.scn["net"], self.scn["k"], repr(sorted(snap["evses"].items())), repr(snap["queue"]), snap["iteration"], snap["resolve"], snap["last_update"], mode))
@@ -322,7 +326,7 @@ def run_plan(scn, hist, plan):
         d = Driver(scn, hist, plan)
         try:
             d.execute()
-        except Crash:
+        except (Crash, Interrupt):
             raise
         except Exception as exc:
             guard(exc)
@@ -357,7 +361,7 @@ def compare(ref, d, plan, out):
 
 
 def plans_for(calls, pairs):
-    single = [[(t, pos, mode)] for t in calls for pos in ("before", "after") for mode in ("resume", "json")]
+    single = [[(t, pos, mode)] for t in calls for pos in ("before", "after") for mode in ("resume", "json", "interrupt")]
     if not pairs:
         return single
     double = []
